@@ -1,20 +1,26 @@
 """C16 — topology diffs (DESIGN §5 C16)."""
-import os, sys
-sys.path.insert(0, os.path.dirname(__file__))
-from _seed import seed_uw
 SRC = "C16_diff.c"
-COMMON = dict(src=SRC, env=["vp_alloc.c", "vp_libc.c"], units=["hwloc/bitmap.c", "hwloc/traversal.c"], unwind=14, checks="safety", object_bits=11, timeout=1700,
-              unwindset=seed_uw(**{"strcmp.0": 16, "strlen.0": 16, "strdup.0": 16, "realloc.0": 40}),
-              stubs=["seed environment stubs of vp_seed.h (no distances/memattrs/cpukinds in the seed)", "realloc: concrete model during set-up"],
+COMMON = dict(src=SRC, env=["vp_alloc.c", "vp_libc.c"], units=["hwloc/bitmap.c", "hwloc/traversal.c", "hwloc/topology.c"], unwind=8, checks="safety", object_bits=11, timeout=1700,
+              unwindset={"strcmp.0": 4, "strlen.0": 4, "vp_mini_build_at.0": 24, "vp_mini_build_at.1": 24, "vp_mini_build_at.2": 24, "vp_mini_build_at.3": 24, "vp_mini_build_at.4": 24, "vp_mini_build_at.5": 24, "vp_mini_build_at.6": 24, "vp_mini_build_at.7": 24, "vp_mini_build_at.8": 24, "vp_mini_build_at.9": 24, "vp_mini_build_at.10": 24, "hwloc_topology_diff_apply.0": 5, "hwloc_topology_diff_apply.1": 2, "hwloc_topology_diff_apply.2": 3},
+              stubs=["topology: the hand-linked 9-object topology of vp_mini.h (accepted by the real hwloc_topology_check in the native self-test)", "distances/memattrs refresh: empty (none in the state)", "realloc: concrete model during set-up"],
               assumptions=["allocation never fails", "hand-built diff entries carry non-NULL strings (the documented type)"])
 APPLY = ["hwloc_topology_diff_apply", "hwloc_apply_diff_one", "hwloc_get_obj_by_depth"]
 BUILD = ["hwloc_topology_diff_build", "hwloc_diff_trees", "hwloc_append_diff_obj_attr_string", "hwloc_append_diff_obj_attr_uint64", "hwloc_append_diff_too_complex", "hwloc_append_diff"]
 HARNESSES = [
-  dict(COMMON, name="apply_2", entry="h_apply", encoded=APPLY, tiers={"quick": {"defines": {"NE": 2}}, "thorough": {"defines": {"NE": 2}}},
-       bounds="seed S1 + names/infos from a 3-string pool; arbitrary diff list of <= 2 entries (entry type, target, attribute type, strings, 64-bit values, flags symbolic)", witness=False),
-  dict(COMMON, name="apply_3", entry="h_apply", encoded=APPLY, tiers={"quick": {"defines": {"NE": 3}}, "thorough": {"defines": {"NE": 3}}},
-       bounds="as apply_2 with <= 3 entries (needed for chained edits followed by a failing entry)", cost=60),
-  dict(COMMON, name="build", entry="h_build", encoded=BUILD + APPLY, tiers={"quick": {}, "thorough": {}},
-       bounds="pair (A, B): B = S1 with any combination of rename / info value / topology info value / local memory delta (any 64-bit), and at most one non-representable edit out of 5 kinds", cost=60),
+  dict(COMMON, name="mini_ok", entry="h_mini_ok", encoded=["(self-test of the hand-linked topology; natively through hwloc_topology_check)"], tiers={"quick": {}, "thorough": {}}, bounds="concrete"),
 ]
-OUTSIDE = ["diff XML export/load (refname)", "distances/memattr/cpukind comparison branches of diff_build (empty in the seed)", "lists longer than 3 entries"]
+SCRIPTS = ["info,info,info on PU0", "size NUMA0, name Package0, info topology", "name,name Package0, size NUMA0", "size,size NUMA0, missing object",
+           "info topology, size on a PU, unknown attribute", "info PU0, size/name addressed to the topology"]
+for k, what in enumerate(SCRIPTS):
+  HARNESSES.append(dict(COMMON, name="apply_s%d" % k, entry="h_apply", encoded=APPLY, defines={"SCRIPT": k, "NE": 3}, tiers={"quick": {}, "thorough": {}},
+       bounds="list of 1..3 entries addressing [%s] (fixed script); symbolic: list length, last entry's type (attr/too-complex/unknown), strings from a 3-string pool, info name k/t, 64-bit old/new values, flags 0..3" % what, cost=30))
+for e in range(16):
+  tiers = {"thorough": {"timeout": 5000}}
+  if e in (0, 1, 2, 4, 8): tiers["quick"] = {}
+  HARNESSES.append(dict(COMMON, name="build_e%d" % e, entry="h_build", encoded=BUILD + APPLY, defines={"EDITS": e, "NONREP": 0}, tiers=tiers,
+       bounds="pair (A, B = copy edited on the attribute subset mask %d of {Package0 name, PU0 info, topology info, NUMA0 local memory}); new strings from the pool, any non-zero 64-bit memory delta" % e, cost=30))
+NR = ["", "an extra info on one side", "name unset on B", "name unset on A", "a complete_cpuset changed", "an os_index changed"]
+for k in range(1, 6):
+  HARNESSES.append(dict(COMMON, name="build_nonrep%d" % k, entry="h_build", encoded=BUILD, defines={"EDITS": 15, "NONREP": k}, tiers={"quick": {}, "thorough": {}},
+       bounds="pair (A, B) with all four representable edits (symbolic values) plus: %s" % NR[k], cost=30))
+OUTSIDE = ["diff XML export/load (refname)", "distances/memattr/cpukind comparison branches of diff_build (empty in the state)", "lists longer than 3 entries"]
